@@ -173,3 +173,19 @@ OBLIGATIONS = [
          encodes=['s3transfer.download.DeferQueue.request_writes'],
          assumptions=['representation invariant: withheld chunks disjoint, ascending, strictly beyond next_offset']),
 ]
+
+
+def stream_nested(size, thr, chunk, io, rc, iq, dn, p1, k1, b1, j1):
+    """C16.3: ranged download to a non-seekable stream under nested schedules (engine NS): with a small IO queue a
+    request thread blocks while submitting its released writes and other request threads run meanwhile"""
+    from harness import c02
+    return c02.download_nested('stream', size, thr, chunk, io, rc, iq, dn, p1, k1, b1, j1)
+
+
+def _c023():
+    from harness import c02
+    o = [x for x in c02.OBLIGATIONS if x['id'] == 'C02.3'][0]
+    return dict(o, id='C16.3', impl='stream_nested', cases=[()], cases_thorough=[()])
+
+
+OBLIGATIONS.append(_c023())
